@@ -20,6 +20,8 @@ DECIDED_MORE = ('Also: escape analysis of the decoder incl. next() on a sentinel
 DECIDED = DECIDED + ' ' + DECIDED_MORE
 DECIDED_R6 = ('Round 6: early-stop bound; unknown length reads limit + 1; empty CONTENT_LENGTH; the RequestError handler of _body hands the caught error to _raise.')
 DECIDED = DECIDED + ' ' + DECIDED_R6
+DECIDED_R7 = ('Round 7: the parsed views (json, POST) are produced whatever the framing; chunked is recognised as one white-space-stripped item of the Transfer-Encoding list.')
+DECIDED = DECIDED + ' ' + DECIDED_R7
 NOT_DECIDED = ('which spellings of the size line int(x, 16) accepts (sign, underscores, 0x prefix): value semantics of the '
                'conversion; equality of decoded payload with the sent payload beyond the loop-invariant premises above.')
 ASSUMPTIONS = ['wsgi.input.read(n) returns at most n bytes (PEP 3333)', 'int(b, 16) raises ValueError on non-hex text']
